@@ -41,6 +41,8 @@ use nv::{Case, CaseWriter, Obs, Rng, hex, unhex};
 mod c15_files;
 #[path = "../shared/c15_decode.rs"]
 mod c15_decode;
+#[path = "../shared/c15_cmate.rs"]
+mod c15_cmate;
 
 use c15_files as files;
 
@@ -890,6 +892,72 @@ fn gen_all(rng: &mut Rng, thorough: bool, div: u64, w: &mut CaseWriter) {
             w.push("gffit", vec![hex(&col)]);
         }
     }
+    {
+        // CRAM resolve_mates (modelled, NV.Hostile.MatesP): arbitrary DETACHED / MATE_IS_DOWNSTREAM
+        // bits and mate distances in the CF / NF series of a sealed container
+        use c15_cmate::MRec;
+        const MAPPED: [u16; 7] = [0x41, 0x81, 0x51, 0x91, 0x1, 0x0, 0x11];
+        const UNPLACED: [u16; 4] = [0x45, 0x85, 0x4, 0x55];
+        let place = |k: usize, flag: u16, cf: u8, nf: u32| MRec {
+            flag,
+            rid: (k % 2) as i64,
+            pos: 3 + 11 * k,
+            a: 2 + k % 3,
+            d: if k % 3 == 1 { 2 } else { 0 },
+            b: 1 + k % 4,
+            cf,
+            nf,
+        };
+        if div == 1 {
+            // every assignment of {detached, attached, downstream with distance 0..n} to n records
+            for n in 1..=(if thorough { 4usize } else { 3 }) {
+                let choices = n as u64 + 3;
+                let total = choices.pow(n as u32);
+                for code in 0..total {
+                    let mut c = code;
+                    let rs: Vec<MRec> = (0..n)
+                        .map(|k| {
+                            let ch = c % choices;
+                            c /= choices;
+                            let (cf, nf) = match ch {
+                                0 => (2u8, 0u32),
+                                1 => (0, 0),
+                                x => (4, (x - 2) as u32),
+                            };
+                            place(k, MAPPED[k % 4], cf, nf)
+                        })
+                        .collect();
+                    w.push("cmate", vec![c15_cmate::fmt_recs(&rs)]);
+                }
+            }
+        }
+        for _ in 0..q(if thorough { 4000 } else { 300 }) {
+            let n = 1 + rng.below(if thorough { 14 } else { 9 }) as usize;
+            let rs: Vec<MRec> = (0..n)
+                .map(|i| {
+                    let cf = [4u8, 4, 4, 2, 2, 0, 6, 4][rng.below(8) as usize];
+                    let left = (n - 1 - i) as u32;
+                    let nf = match rng.below(12) {
+                        0 => left,                       // one past the slice
+                        1 => left.saturating_sub(1),     // the last record
+                        2 => [0x7fff_ffffu32, 0x7fff_fffe, 5_000_000, 0x1000_0000, 200][rng.below(5) as usize],
+                        3 => left + 1 + rng.below(3) as u32,
+                        _ => rng.below(left.max(1) as u64) as u32,
+                    };
+                    if rng.chance(1, 8) {
+                        MRec { flag: UNPLACED[rng.below(4) as usize], rid: -1, pos: 0, a: 0, d: 0, b: 0, cf, nf }
+                    } else {
+                        let rid = rng.below(2) as i64;
+                        let (a, b) = (1 + rng.below(6) as usize, 1 + rng.below(6) as usize);
+                        let d = if rng.chance(1, 3) { 1 + rng.below(3) as usize } else { 0 };
+                        let lim = if rid == 0 { 185 } else { 100 };
+                        MRec { flag: MAPPED[rng.below(7) as usize], rid, pos: 1 + rng.below(lim) as usize, a, d, b, cf, nf }
+                    }
+                })
+                .collect();
+            w.push("cmate", vec![c15_cmate::fmt_recs(&rs)]);
+        }
+    }
     if div == 1 {
         // input-driven recursion depth (each case runs in its own child process)
         for place in ["ids", "fmtkey"] {
@@ -1523,6 +1591,32 @@ fn run_gffit(col: Vec<u8>) -> Obs {
     }
 }
 
+/// CRAM resolve_mates on arbitrary cram flags / mate distances through a sealed container
+/// (model: NV.Hostile.MatesP.resolve_view_series)
+fn run_cmate(arg: String) -> Obs {
+    let Some(rs) = c15_cmate::parse_recs(&arg) else {
+        return Obs::fail("-", "harness-cmate-args", &arg);
+    };
+    if !c15_cmate::writable(&rs) {
+        return Obs { obs: "-".into(), verdict: "skip".into(), nontrivial: false };
+    }
+    let shown = arg.clone();
+    let ran = watchdog(move || match c15_cmate::run(&rs) {
+        Ok(s) => s,
+        Err(e) => format!("Harness:{e}"),
+    });
+    match ran {
+        Ran::Done(s) if s.starts_with("Harness:") => Obs::fail(s.clone(), "harness-cmate", format!("{s} | cmate {shown}")),
+        Ran::Done(s) => Obs::ok(s, true),
+        Ran::Panic { file, line, msg } => {
+            let tag = site_tag("cram", &file, line, &msg);
+            Obs::fail("Panic", &tag, format!("{file}:{line}: {msg} | cmate {shown}"))
+        }
+        Ran::Hang(_) => Obs::fail("Hang", "hang-cram-resolve-mates", format!("cmate {shown}")),
+        Ran::TooLarge(n, _) => Obs::fail("TooLarge", "alloc-cram-resolve-mates", format!("{n} bytes | cmate {shown}")),
+    }
+}
+
 fn run_rfreq(table: Vec<u8>) -> Obs {
     // order 0, compressed size, uncompressed size 1 => decode() reads the table, builds the cumulative
     // table and the lookup table, reads the 4 states (each 2^23) and decodes one symbol
@@ -1659,6 +1753,7 @@ fn run(c: &Case) -> Obs {
         "csiq" => run_csiq(c.u(0), c.u(1), c.u(2), c.u(3), c.u(4)),
         "rfreq" => run_rfreq(c.b(0)),
         "gffit" => run_gffit(c.b(0)),
+        "cmate" => run_cmate(c.args[0].clone()),
         "nest" => run_nest(c.args[0].clone(), c.args[1].clone(), c.u(2) as usize),
         k => Obs::fail("-", "harness-unknown-kind", k),
     }
